@@ -5,16 +5,14 @@
         IOEnv.ROUTER_UNIVERSE = file with [ts, ps, conv, bad]
    X*  exhaustive instance (no history; VIEW drops `last`)        -> leg M
    EmitTable  on the same instance: the decision table of every state        -> leg A (decision table)
-   A*  add/find histories with a history variable                 -> leg A (-simulate)        *)
-EXTENDS Router, Json, IOUtils
+   A*  add/find histories with a history variable `h`             -> leg A (-simulate)        *)
+EXTENDS RouterUniverse, Router, Randomization
 CONSTANTS MaxDepth, MaxPathLen, Depth
 VARIABLE h
 
-U == JsonDeserialize(IOEnv.ROUTER_UNIVERSE)
-MCTS  == U.ts
-MCBad == Range(U.bad)
-Tab(k) == LET R == {r \in Range(U.conv) : r.k = k} IN [s \in {r.s : r \in R} |-> CHOOSE r \in R : r.s = s]
-MCCT  == [int |-> Tab("int"), float |-> Tab("float"), uuid |-> Tab("uuid"), dt |-> Tab("dt")]
+MCTS  == UTS
+MCBad == UBad
+MCCT  == UCT
 (* a template is what is left after the router stripped the leading slashes: no leading empty segment *)
 MCTemplates == {tp \in UNION {[1..d -> 1..Len(U.ts)] : d \in 1..MaxDepth} : Len(tp) = 1 \/ U.ts[tp[1]].items # <<>>}
 MCPaths     == UNION {[1..d -> Range(U.ps)] : d \in 1..MaxPathLen}
@@ -50,12 +48,28 @@ Hits  == LET ft == FinderTree IN
 Outs  == {[t |-> tp, out |-> Outcome(tree, tp)] : tp \in Templates}
 EmitTable == Canonical => PrintT(ToJson([acc |-> accepted, outs |-> Outs, hits |-> Hits]))
 
-(* ---- history instance ---- *)
-AAccept            == (\E tp \in Templates, c \in BOOLEAN : AddAccept(tp, c)) /\ Log
-ARejectInvalid     == (\E tp \in Templates, c \in BOOLEAN : AddRejectInvalid(tp, c)) /\ Log
-ARejectConflict    == (\E tp \in Templates, c \in BOOLEAN : AddRejectConflict(tp, c)) /\ Log
-ARejectPathNotLast == (\E tp \in Templates, c \in BOOLEAN : AddRejectPathNotLast(tp, c)) /\ Log
-AFind              == (\E p \in Paths : Find(p)) /\ Log
+(* ---- history instance for -simulate (leg A): add/find histories of a larger universe.  Every step
+   offers a few randomly drawn candidates instead of the whole (large) sets: templates that extend an
+   existing node or are drawn from Templates; paths instantiated from an accepted template with
+   matching representatives and then perturbed, or drawn from Paths. ---- *)
+PSet   == Range(U.ps)
+SegIds == DOMAIN MCTS
+RepsOf == [i \in SegIds |-> IF i \in PathSegs THEN PSet ELSE {s \in PSet : Match(MCTS[i], s).ok}]
+Guided(tp) == [i \in 1..Len(tp) |-> IF RepsOf[tp[i]] = {} THEN RandomElement(PSet) ELSE RandomElement(RepsOf[tp[i]])]
+SomeTemplates ==
+    RandomSubset(2, Templates)
+    \cup {Append(n, RandomElement(SegIds)) : n \in {m \in RandomSubset(3, DOMAIN tree) : Len(m) < MaxDepth /\ Append(m, 1) \in Templates}}
+SomePaths ==
+    IF accepted = <<>> THEN RandomSubset(2, Paths)
+    ELSE LET g == Guided(accepted[RandomElement(DOMAIN accepted)].t) IN
+         {g, [g EXCEPT ![RandomElement(DOMAIN g)] = RandomElement(PSet)]}
+         \cup (IF Len(g) < MaxPathLen THEN {Append(g, RandomElement(PSet))} ELSE {})
+         \cup RandomSubset(1, Paths)
+AAccept            == (\E tp \in SomeTemplates, c \in BOOLEAN : AddAccept(tp, c)) /\ Log
+ARejectInvalid     == (\E tp \in SomeTemplates, c \in BOOLEAN : AddRejectInvalid(tp, c)) /\ Log
+ARejectConflict    == (\E tp \in SomeTemplates, c \in BOOLEAN : AddRejectConflict(tp, c)) /\ Log
+ARejectPathNotLast == (\E tp \in SomeTemplates, c \in BOOLEAN : AddRejectPathNotLast(tp, c)) /\ Log
+AFind              == (\E p \in SomePaths : Find(p)) /\ Log
 ANext == AAccept \/ ARejectInvalid \/ ARejectConflict \/ ARejectPathNotLast \/ AFind
 Emit == (Len(h) = Depth) => PrintT(ToJson([h |-> h]))
 ==========================================================================
